@@ -55,6 +55,11 @@ def run_norm(argv):
     return out.getvalue(), exc
 
 
+def eol_after(d, eol):
+    """what --eol puts after each terminator: a line break, unless the terminator already is one ("one per line")"""
+    return '\n' if eol and d['term'] != '\n' else ''
+
+
 def normalise(text, eol, fix, mode, workdir, name='in.x12'):
     src = os.path.join(workdir, name)
     with open(src, 'w', encoding='ascii', newline='') as fh:
@@ -128,7 +133,7 @@ def check_case(case):
                      'segment #%d: output %r expected %r' % (i, g[i] if i < len(g) else None, exp[i] if i < len(exp) else None))
             return out
         # 2. layout
-        want = x12ref.serialize(exp, d, '\n' if eol else '') + ('' if eol else '\n')
+        want = x12ref.serialize(exp, d, eol_after(d, eol)) + ('' if eol else '\n')
         if res != want:
             i = 0
             while i < min(len(res), len(want)) and res[i] == want[i]:
@@ -203,7 +208,7 @@ def expected_text(text, eol, fix):
     exp = [(s.id, s.trimmed()) for s in ref]
     if fix:
         exp = _repair(exp, d)
-    return x12ref.serialize(exp, d, '\n' if eol else '') + ('' if eol else '\n')
+    return x12ref.serialize(exp, d, eol_after(d, eol)) + ('' if eol else '\n')
 
 
 def check_multi(case, out):
@@ -217,7 +222,8 @@ def check_multi(case, out):
             with open(p_, 'w', encoding='ascii', newline='') as fh:
                 fh.write(t)
             paths.append(p_)
-        argv = (['-e'] if eol else []) + (['-f'] if fix else []) + (['-i'] if mode == 'inplace' else []) + paths
+        dst = os.path.join(wd, 'out.x12')
+        argv = (['-e'] if eol else []) + (['-f'] if fix else []) + (['-i'] if mode == 'inplace' else []) + (['-o', dst] if mode == 'outfile' else []) + paths
         so, exc = run_norm(argv)
         if exc is not None:
             out.fail(core.exc_bucket(exc, 'main-multi'), core.exc_detail(exc))
@@ -230,6 +236,12 @@ def check_multi(case, out):
                     out.fail('multi-file:inplace:file-%d' % i, 'file #%d of 2 (lengths %d, %d): result has %d characters, expected %d'
                              % (i, len(texts[0]), len(texts[1]), len(got[i]), len(want[i])))
                     return
+        elif mode == 'outfile':
+            # the named output receives what standard output would have received
+            got = open(dst, encoding='ascii', newline='').read() if os.path.exists(dst) else ''
+            if got != ''.join(want):
+                out.fail('multi-file:outfile', 'the output file has %d characters, the two normalisations together %d (the second alone %d)'
+                         % (len(got), len(''.join(want)), len(want[1])))
         else:
             if so != ''.join(want):
                 out.fail('multi-file:stdout', 'stdout has %d characters, the two normalisations together %d' % (len(so), len(''.join(want))))
@@ -251,6 +263,12 @@ def strategy(tier):
         rep = [c for c in '^`<|' if c not in (term, ele, sub)][0]
         lay = draw(st.sampled_from(['', '\n', '\r\n']))
         vals = st.sampled_from(['A', 'X1', '100', 'NAME X', '12.5', 'HC', 'A\rB', 'L1\nL2'])
+        if draw(st.integers(0, 7)) == 0:
+            # a line break as the terminator: the file already has one segment per line
+            term = draw(st.sampled_from(['\n', '\n', '\r']))
+            lay = '' if term == '\n' else draw(st.sampled_from(['', '\n']))
+            vals = st.sampled_from(['A', 'X1', '100', 'NAME X', '12.5', 'HC'])
+            classes.add('line-break-terminator')
 
         def cnt(true, what):
             if draw(st.integers(0, 3)) == 0:
